@@ -14,7 +14,7 @@ THEOREMS_CACHE = ["single_flight", "at_most_one_success_per_key", "waiters_get_o
 THEOREMS_COMPUTE = ["compute_patches_confluent", "compute_patches_confluent_compare", "patch_compare_total_preorder",
                     "patch_compare_not_transitive_refuted", "compute_patches_tie_schedule_dependent_refuted"]
 THEOREMS_RACE = ["walk_context_race_free", "shared_clients_lock_protected", "client_unprotected_slots_refuted",
-                 "registries_never_appended_in_place"]
+                 "registries_never_appended_in_place", "no_cached_slice_mutated_in_place"]
 
 META = {
     "technique": "Coq proofs (confluence of a nondeterministic task pool; inductive invariants of an LTS over arbitrarily "
@@ -97,7 +97,7 @@ def translate(ctx):
     rc2, out2 = vlib.sh([binp, "-structs", ",".join(os.path.join(vlib.REPO, d) for d in ("clients/datasource", "clients/resolution")),
                          "-out", target2])
     after2 = vlib.sha(open(target2).read()) if os.path.exists(target2) else None
-    m2 = re.search(r"client_accesses=(\d+) structs=(\d+)", out2)
+    m2 = re.search(r"client_accesses=(\d+) structs=(\d+) escapes=(\d+) mutations=(\d+)", out2)
     rc = rc or rc2
     out += out2
     # the tables are compiled on every run: a restored or rewritten .v must never be paired with an older .vo
@@ -105,7 +105,8 @@ def translate(ctx):
         if os.path.exists(t):
             os.utime(t, None)
     return {"ok": rc == 0, "client_table": {"changed_since_last_run": before2 != after2, "sha256": after2,
-                                            "accesses": int(m2.group(1)) if m2 else None, "structs": int(m2.group(2)) if m2 else None}, "changed_since_last_run": before != after, "sha256": after,
+                                            "accesses": int(m2.group(1)) if m2 else None, "structs": int(m2.group(2)) if m2 else None,
+                                            "escapes": int(m2.group(3)) if m2 else None, "mutations": int(m2.group(4)) if m2 else None}, "changed_since_last_run": before != after, "sha256": after,
             "accesses": int(m.group(1)) if m else None, "calls": int(m.group(2)) if m else None,
             "fields": int(m.group(3)) if m else None, "log": out[-500:]}
 
@@ -285,6 +286,16 @@ def part_clients(ctx, racebin, known):
     reps = parse_race_reports(out)
     runs = [json.loads(x) for x in re.findall(r"^clients-run: (\{.*\})$", out, re.M)]
     res = {"runs": runs, "race_reports": len(reps)}
+    mn = re.search(r"^clients-npm-run: (\{.*\})$", out, re.M)
+    res["npm"] = json.loads(mn.group(1)) if mn else None
+    if res["npm"] is None:
+        ctx.violation({"kind": "clients-harness-failed", "log": out[-2000:]}, nofail=True)
+    elif res["npm"].get("problems"):
+        ctx.violation({"kind": "npm-client-inconsistent-version-lists", "part": "clients", "run": res["npm"],
+                       "explanation": "8 concurrent Versions / MatchingVersions calls for one package on one shared "
+                                      "resolution.NPMRegistryClient (local registry, 60 versions listed newest first): some caller got an "
+                                      "incomplete / unsorted list, or repeated calls differ",
+                       "replay_cmd": "%s -mode clients" % racebin})
     if not runs:
         ctx.violation({"kind": "clients-harness-failed", "log": out[-2000:]}, nofail=True)
         return res
